@@ -112,6 +112,52 @@ CLAIMED = {
          "showBackground). Calls that raise are counted, not judged (C18).",
     technique="TLC-enumerated operation histories replayed on real objects + trace validation of cached vs uncached snapshots",
     design_ref="6/C14"),
+  "C06": dict(
+    level="model_checking",
+    text="spec/Cues.tla specifies TextAt(snapshot) (regions then document order, line breaks at br / paragraph / region ends, "
+         "ruby base text included, white-space-only lines dropped) and the relation Covers between the recorded snapshot "
+         "sequence and a cue list (boundaries are nearest-millisecond roundings of significant times, unbounded last "
+         "interval = begin + 10 s, ordered, non-overlapping, every millisecond slot certainly inside an interval shows "
+         "exactly TextAt; splitting/merging admitted, vanishing sub-millisecond intervals demand nothing). TLC checks the "
+         "design model spec/CuesCover.tla (reference and merged cue lists admitted; dropped, shifted, swapped, repeated, late "
+         "cues rejected) and enumerates document structure shapes (spec/CuesShapes.tla) that are built with the model API and "
+         "written by both writers under each configuration; seeded random documents add code -> spec traces. The harness only "
+         "lexes the output; spec/Trace_Cues.tla decides every clause.",
+    note="Trusted: TLC; the strict line/token lexer of SRT/VTT output; the projection of ISD snapshots. The snapshot sequence "
+         "itself is taken as given (C01/C02/C03 judge it).",
+    technique="TLA+ coverage relation between snapshot sequence and cue list; TLC-enumerated shapes replayed into the writers; recorded outputs validated by TLC",
+    design_ref="6/C06, NOTES_C06.md"),
+  "C07": dict(
+    level="model_checking",
+    text="spec/Cues.tla: SrtAcceptor and VttAcceptor are line-level state machines (header, optional STYLE block, numbered / "
+         "identified cues, timing lines with b < e and ordered, payload lines without '-->', escaped '&' and '<' in WebVTT, "
+         "balanced properly nested tags); TLC explores them over all line sequences up to a bound and checks that acceptance "
+         "implies the grammar facts. Tag runs: per character the effective bold/italic/underline/colour/background recovered "
+         "from the enclosing tags must equal the computed style flags of that character in the snapshot; none when "
+         "formatting is off; line/align cue settings must agree with the region position / paragraph alignment. Every "
+         "TLC-enumerated style-run shape (nested, adjacent, overlapping spans x attributes x markup-significant text) and "
+         "seeded random documents are written under every configuration, lexed, and judged by spec/Trace_Cues.tla.",
+    note="Trusted: TLC; the lexer (it only splits lines/tokens; acceptance is decided in TLA+); the projection of computed "
+         "styles per character. Known limitation recorded: SubRip has no escape for '-->' inside text.",
+    technique="TLA+ acceptor state machines model-checked with TLC + trace validation of lexed writer outputs and tag runs",
+    design_ref="6/C07, NOTES_C07.md"),
+  "C09": dict(
+    level="model_checking",
+    text="spec/Stl.tla (from EBU Tech 3264 / ISO 6937): GSI decoding (frame rate per DFC, teletext vs open, programme start, "
+         "rows), the TTI accumulator as a state machine (user data / reserved / comment blocks skipped, extension blocks "
+         "concatenated, terminal block emits a subtitle, early subtitles dropped, cumulative sets) and the text-field pen "
+         "machine (one action per byte class: colours, background, box, height, italics, underline, newline, filler; ISO 6937 "
+         "diacritic + letter composition). TLC checks 24 design properties on bounded models with enforced per-action "
+         "coverage and enumerates TTI sequences and text fields, which are rendered to real bytes, read with "
+         "stl.reader.to_model and projected; random richer files x reader configurations are recorded too. "
+         "spec/Trace_Stl.tla folds the same machine over each recorded input and compares times (exact frames via "
+         "Timecode.tla), text as (mark, base) pairs, breaks, colours, italics, underline, alignment, region anchoring, "
+         "safe area, cumulative sets and configuration effects.",
+    note="Trusted: TLC; the byte-level file builder; NFD decomposition for character comparison. Single-byte 8859 upper halves "
+         "and ISO 6937 bytes not restated in the spec only have to yield exactly one character (section 7). Known finding: "
+         "STL30.01 is read as 30000/1001 drop-frame.",
+    technique="TLA+ state machines for the TTI accumulator and text-field pen model-checked with TLC; enumerated inputs replayed; recorded reads validated by folding the machine in TLC",
+    design_ref="6/C09, NOTES_C09.md"),
 }
 
 NOT_YET = "check not built yet in this round; see DESIGN.md section 6 for the planned TLA+ specification"
